@@ -297,6 +297,11 @@ def _classify_return(repo, recs, R, h: Handler, hp: HPath, expr, line, tparams, 
         return
     # list comprehension of constructors (split)
     ctor_expr, elem_src = expr, None
+    # (a list comprehension, or tuple(...) / list(...) of a comprehension / generator: the sequence type is irrelevant to the packet's callers)
+    if isinstance(expr, ast.Call) and isinstance(expr.func, ast.Name) and expr.func.id in ("tuple", "list") and len(expr.args) == 1 and not expr.keywords \
+            and isinstance(expr.args[0], (ast.GeneratorExp, ast.ListComp)):
+        expr = ast.ListComp(elt=expr.args[0].elt, generators=expr.args[0].generators)
+        ctor_expr = expr
     if isinstance(expr, ast.ListComp) and len(expr.generators) == 1 and isinstance(expr.generators[0].target, ast.Name) and not expr.generators[0].ifs:
         g = expr.generators[0]
         elem_src = g.iter
